@@ -3,10 +3,10 @@ CONSTANTS t1 = t1 t2 = t2 t3 = t3
 CONSTANT Threads <- TH
 CONSTANT Obs = {1, 2}
 CONSTANT MaxOps = 2
-CONSTANT Weak = "unsubscribe"
-CONSTANT OneShots = {}
+CONSTANT Weak = "none"
+CONSTANT OneShots = {1}
 CONSTANT NotifyLock = "Read"
 CONSTANT Removal = "inline"
-INVARIANTS NoCallAfterUnsubscribe NoDeadlock ListWriteExclusive NoUseAfterFree OneShotOnce
+INVARIANTS ListWriteExclusive
 PROPERTY NoWriteDuringDelivery
 CHECK_DEADLOCK FALSE
